@@ -356,6 +356,10 @@ def evaluate(item):
 
 
 def universe(tier):
+    # containers three and four levels below the top (the C01 quick universe stops at depth 2)
+    for v in ({"a": {"b": {"c": 1}}}, {"a": [[1], [2]]}, {"a": [{"b": [1, 2]}]}, {"a": {"b": {"c": {"d": [1]}}}},
+              {"a": {"b": [{"c": {"d": 1}}]}, "z": 0}):
+        yield ("sp", v)
     for v in c01.universe("quick"):
         yield ("sp", v)
     for n, sps in sorted(real_prefix_sets().items()):
